@@ -296,7 +296,10 @@ func (d *Document) writeJSONValue(buf *bytes.Buffer, value Value) error {
 				variableName := d.Input.ByteSliceString(d.VariableValues[objFieldValue.Ref].Name)
 				_, dataType, _, _ := jsonparser.Get(d.Input.Variables, variableName)
 				if dataType == jsonparser.NotExist {
-					continue
+					// a variable which is not provided and has no default value: the field is absent
+					if _, hasDefault := d.variableDefaultValue(variableName); !hasDefault {
+						continue
+					}
 				}
 			}
 
@@ -317,8 +320,12 @@ func (d *Document) writeJSONValue(buf *bytes.Buffer, value Value) error {
 		variableName := d.Input.ByteSliceString(d.VariableValues[value.Ref].Name)
 		variableValue, dataType, _, err := jsonparser.Get(d.Input.Variables, variableName)
 		if err != nil {
+			// the request does not provide the variable: its default value, if it has one
+			if defaultValue, hasDefault := d.variableDefaultValue(variableName); hasDefault {
+				return d.writeJSONValue(buf, defaultValue)
+			}
 			buf.Write(literal.NULL)
-			return nil //nolint:nilerr // A missing variable is rendered as GraphQL null.
+			return nil //nolint:nilerr // A missing variable without default is rendered as GraphQL null.
 		}
 		if dataType == jsonparser.String {
 			buf.WriteByte('"')
@@ -484,4 +491,24 @@ func (d *Document) GetBooleanValue(value Value) (out, valid bool) {
 	default:
 		return false, false
 	}
+}
+
+// variableDefaultValue returns the default value of the variable with the given name, looking at
+// the variable definitions of the operations which are part of the document. Default values are
+// constants (they contain no variables).
+func (d *Document) variableDefaultValue(name string) (Value, bool) {
+	for _, node := range d.RootNodes {
+		if node.Kind != NodeKindOperationDefinition {
+			continue
+		}
+		for _, i := range d.OperationDefinitions[node.Ref].VariableDefinitions.Refs {
+			if d.VariableDefinitionNameString(i) != name {
+				continue
+			}
+			if d.VariableDefinitions[i].DefaultValue.IsDefined && !d.ValueContainsVariable(d.VariableDefinitions[i].DefaultValue.Value) {
+				return d.VariableDefinitions[i].DefaultValue.Value, true
+			}
+		}
+	}
+	return Value{}, false
 }
